@@ -19,7 +19,7 @@ def renderMap (m : HeaderMap) : String :=
   let sorted := m.mergeSort (fun a b => bytesLe a.1 b.1)
   ";".intercalate (sorted.map fun (k, vs) => encodeHex k ++ "=" ++ encodeList vs)
 
-def renderFraming : Framing → String
+def renderFraming : RespFraming → String
   | .none => "none"
   | .length n => "len" ++ toString n
   | .chunked => "chunked"
